@@ -15,10 +15,10 @@ SPEC = dict(
         "triggers of the recorded known findings (C01-partial-bootstrap-self-election, C03-single-voter-apply-before-wal, C03-restarted-learner-refuses-snapshot, C03-rocksstorage-stale-tail-after-snapshot) are excluded from generation and counted",
     ],
     quick=[
-        dict(name="l1", pkg=_PKG, test="TestLeaderL1", checks=1500, shards=2),
-        dict(name="l2", pkg=_PKG, test="TestLeaderL2", checks=1100, shards=5),
-        dict(name="member", pkg=_PKG, test="TestLeaderMembership", checks=1300, shards=4),
-        dict(name="l3", pkg=_PKG, test="TestLeaderL3", checks=2500, shards=4),
+        dict(name="l1", pkg=_PKG, test="TestLeaderL1", checks=2400, shards=2),
+        dict(name="l2", pkg=_PKG, test="TestLeaderL2", checks=1700, shards=5),
+        dict(name="member", pkg=_PKG, test="TestLeaderMembership", checks=2000, shards=4),
+        dict(name="l3", pkg=_PKG, test="TestLeaderL3", checks=4000, shards=4),
         dict(name="known", pkg=_PKG, test="TestKnown.*", checks=1, shards=1),
     ],
     thorough=[
